@@ -539,6 +539,12 @@ fn congress_main(plan: &Value, out: Arc<Mutex<(Vec<String>, Option<Violation>, B
                 // the rate handed to the format is the group's current rate
                 let passed = rec.log.lock().unwrap().last().cloned();
                 let my = groups.iter().find(|x| x.0.contains(&format!("\"{g}\"")));
+                if my.is_none() {
+                    // every group is accounted for on its own (rarer groups are never sampled lower than more frequent
+                    // ones - which presupposes that they are told apart), however many there are
+                    out.lock().unwrap().1 = Some(Violation::new("group_not_tracked", format!("an entry of group {g} was just offered, but the sampler tracks no such group among its {} groups", groups.len())));
+                    break 'outer;
+                }
                 if let (Some((pid, prate)), Some(my)) = (passed, my) {
                     if pid == id && prate.to_bits() != my.2.to_bits() {
                         out.lock().unwrap().1 = Some(Violation::new("rate_not_passed_on", format!("group {g}: current rate {:e}, the format received {:e}", my.2, prate)));
@@ -593,16 +599,34 @@ fn congress_main(plan: &Value, out: Arc<Mutex<(Vec<String>, Option<Violation>, B
                             ));
                             break 'outer;
                         }
-                        for a in &groups {
-                            for b in &groups {
-                                if a.1 < b.1 && a.2 < b.2 * (1.0 - eps) {
-                                    out.lock().unwrap().1 = Some(Violation::new(
-                                        "rarer_group_sampled_lower",
-                                        format!("group {} (average {}) is sampled at {:e}, the more frequent group {} (average {}) at {:e}", a.0, a.1, a.2, b.0, b.1, b.2),
-                                    ));
-                                    break 'outer;
+                        // (sorted by average: the lowest rate among the strictly rarer groups against each group's rate)
+                        let mut by_avg: Vec<usize> = (0..groups.len()).collect();
+                        by_avg.sort_by(|x, y| groups[*x].1.partial_cmp(&groups[*y].1).unwrap_or(std::cmp::Ordering::Equal));
+                        let mut lowest: Option<usize> = None; // among groups with a strictly smaller average
+                        let mut i = 0;
+                        while i < by_avg.len() {
+                            let mut j = i;
+                            while j < by_avg.len() && groups[by_avg[j]].1 == groups[by_avg[i]].1 {
+                                j += 1;
+                            }
+                            for k in i..j {
+                                let b = &groups[by_avg[k]];
+                                if let Some(a) = lowest.map(|l| &groups[l]) {
+                                    if a.2 < b.2 * (1.0 - eps) {
+                                        out.lock().unwrap().1 = Some(Violation::new(
+                                            "rarer_group_sampled_lower",
+                                            format!("group {} (average {}) is sampled at {:e}, the more frequent group {} (average {}) at {:e}", a.0, a.1, a.2, b.0, b.1, b.2),
+                                        ));
+                                        break 'outer;
+                                    }
                                 }
                             }
+                            for k in i..j {
+                                if lowest.map(|l| groups[by_avg[k]].2 < groups[l].2).unwrap_or(true) {
+                                    lowest = Some(by_avg[k]);
+                                }
+                            }
+                            i = j;
                         }
                     }
                     None => {}
@@ -683,6 +707,27 @@ impl Scenario for Congress {
         }
         let sched = json!({"seed": rng.next_u64() >> 1, "strategy": {"kind":"random","p":0.1}, "now_cost_ns": *rng.pick(&[0u64, 100, 10_000]), "max_steps": 400_000,
                            "jump_prob": if rng.chance(0.3) { 0.0005 } else { 0.0 }, "jump_max_ns": interval * 40});
+        // one run in 1 000: thousands of live groups (2 100 - 3 000 one-entry groups per interval next to a hot group and a
+        // few rare ones that appear late), far above the target
+        let hm = mix(ju(&sched, "seed", 0), 0x6a09);
+        let intervals = if hm % 1000 == 0 {
+            let many = 2_100 + (hm / 1000) % 900;
+            (0..3u64)
+                .map(|k| {
+                    let mut bursts = vec![json!({"g":"g0","n":400})];
+                    for i in 0..many {
+                        bursts.push(json!({"g": format!("m{i}"), "n": 1}));
+                    }
+                    bursts.push(json!({"g":"g0","n":200}));
+                    for z in 0..=k {
+                        bursts.push(json!({"g": format!("late{z}"), "n": 2}));
+                    }
+                    json!({"bursts": bursts, "per_entry_ns": 0, "then_ns": interval + 1, "draw_word": 0})
+                })
+                .collect()
+        } else {
+            intervals
+        };
         // a fifth of the runs: the output behind the sampler is flaky or down (every 2nd / 3rd / all but one in 50
         // of the emitted entries fail to be written); decided from the schedule seed
         let hf = mix(ju(&sched, "seed", 0), 0xf1a);
